@@ -169,7 +169,7 @@ snapshot the writer keeps (`w'.snap`), which also becomes the reader's snapshot;
 theorem keyframe_step (hH : HuffmanRoundTrip) (objSize : Nat → Option Nat) (w w' : DemoWriter) (hinv : w.Inv)
     (tick : Int) (ht : Tw.Packer.inI32 tick) (items : List Item) (hv : ∀ it ∈ items, it.valid)
     (hk : w.isKeyframe tick = true) (h : w.writeSnap objSize tick items = (w', .ok)) :
-    ∃ enc, w'.inner.file = w.inner.file ++ enc ∧
+    ∃ enc, w'.inner.file = w.inner.file ++ enc ∧ 2 ≤ enc.length ∧
       ∀ (v : Version) (rest : Bytes) (s0 : Snap), v.num ≥ 5 →
         ∃ r1, DemoReader.nextChunk objSize
             { raw := { data := enc ++ rest, version := v, currentTick := w.inner.prevTick }, snap := s0 } =
@@ -183,10 +183,10 @@ theorem keyframe_step (hH : HuffmanRoundTrip) (objSize : Nat → Option Nat) (w 
   simp only [hk, if_true] at hpay hwt hwd
   have hb := addItems_inv items hv w.builder b hinv.binv hadd
   have hread := keyframe_payload_roundtrip hb hpay
-  obtain ⟨e1, hf1, _, hr1⟩ := writeChunk_ok hH w.inner inner1 (.tick tick true) ht hwt
-  obtain ⟨e2, hf2, _, hr2⟩ := writeChunk_ok hH inner1 w'.inner (.snapshot bs) trivial hwd
+  obtain ⟨e1, hf1, hl1, hr1⟩ := writeChunk_ok hH w.inner inner1 (.tick tick true) ht hwt
+  obtain ⟨e2, hf2, hl2, hr2⟩ := writeChunk_ok hH inner1 w'.inner (.snapshot bs) trivial hwd
   have hsnap : w'.snap = b.snap := by rw [hw']
-  refine ⟨e1 ++ e2, by rw [hf2, hf1, List.append_assoc], ?_⟩
+  refine ⟨e1 ++ e2, by rw [hf2, hf1, List.append_assoc], by rw [List.length_append]; omega, ?_⟩
   intro v rest s0 hv5
   have h1 := hr1 v (e2 ++ rest) hv5
   have h2 := hr2 v rest hv5
@@ -205,7 +205,7 @@ theorem delta_step (hH : HuffmanRoundTrip) (objSize : Nat → Option Nat) (w w' 
     (tick : Int) (ht : Tw.Packer.inI32 tick) (items : List Item) (hv : ∀ it ∈ items, it.valid)
     (hk : w.isKeyframe tick = false) (h : w.writeSnap objSize tick items = (w', .ok))
     (hag : SizesAgree w.snap.raw w'.snap.raw) (hok : SizesOk objSize w'.snap.raw.items) :
-    ∃ enc, w'.inner.file = w.inner.file ++ enc ∧
+    ∃ enc, w'.inner.file = w.inner.file ++ enc ∧ 2 ≤ enc.length ∧
       ∀ (v : Version) (rest : Bytes), v.num ≥ 5 →
         ∃ r1, DemoReader.nextChunk objSize
             { raw := { data := enc ++ rest, version := v, currentTick := w.inner.prevTick }, snap := w.snap } =
@@ -233,9 +233,9 @@ theorem delta_step (hH : HuffmanRoundTrip) (objSize : Nat → Option Nat) (w w' 
     unfold Snap.readWithDelta
     rw [hap]
     simp only [buildFromRaw_of_extOk hb.ok, List.append_nil]
-  obtain ⟨e1, hf1, _, hr1⟩ := writeChunk_ok hH w.inner inner1 (.tick tick false) ht hwt
-  obtain ⟨e2, hf2, _, hr2⟩ := writeChunk_ok hH inner1 w'.inner (.delta bs) trivial hwd
-  refine ⟨e1 ++ e2, by rw [hf2, hf1, List.append_assoc], ?_⟩
+  obtain ⟨e1, hf1, hl1, hr1⟩ := writeChunk_ok hH w.inner inner1 (.tick tick false) ht hwt
+  obtain ⟨e2, hf2, hl2, hr2⟩ := writeChunk_ok hH inner1 w'.inner (.delta bs) trivial hwd
+  refine ⟨e1 ++ e2, by rw [hf2, hf1, List.append_assoc], by rw [List.length_append]; omega, ?_⟩
   intro v rest hv5
   have h1 := hr1 v (e2 ++ rest) hv5
   have h2 := hr2 v rest hv5
@@ -249,7 +249,7 @@ multiple of four bytes; the reader's snapshot is untouched. -/
 theorem msg_step (hH : HuffmanRoundTrip) (objSize : Nat → Option Nat) (w w' : DemoWriter) (msg : Bytes)
     (h : w.writeMsg msg = (w', .ok)) :
     w'.snap = w.snap ∧ w'.builder = w.builder ∧ w'.lastTick = w.lastTick ∧ w'.lastKeyframe = w.lastKeyframe ∧
-    ∃ enc, w'.inner.file = w.inner.file ++ enc ∧
+    ∃ enc, w'.inner.file = w.inner.file ++ enc ∧ 1 ≤ enc.length ∧
       ∀ (v : Version) (rest : Bytes) (s0 : Snap), v.num ≥ 5 →
         DemoReader.nextChunk objSize
             { raw := { data := enc ++ rest, version := v, currentTick := w.inner.prevTick }, snap := s0 } =
@@ -265,8 +265,8 @@ theorem msg_step (hH : HuffmanRoundTrip) (objSize : Nat → Option Nat) (w w' : 
     · rename_i inner' hwm
       cases h
       refine ⟨rfl, rfl, rfl, rfl, ?_⟩
-      obtain ⟨enc, hf, _, hr⟩ := writeChunk_ok hH w.inner inner' (.message msg) trivial hwm
-      refine ⟨enc, hf, ?_⟩
+      obtain ⟨enc, hf, hl, hr⟩ := writeChunk_ok hH w.inner inner' (.message msg) trivial hwm
+      refine ⟨enc, hf, hl, ?_⟩
       intro v rest s0 hv5
       simp only [DemoReader.nextChunk, hr v rest hv5, Chunk.padded, List.map_nil]
 
